@@ -547,7 +547,8 @@ func (server *SugarDB) adjustMemoryUsage(ctx context.Context) error {
 	// Start a loop that evicts keys until either the heap is empty or
 	// we're below the max memory limit.
 
-	log.Printf("Memory used: %v, Max Memory: %v", server.GetServerInfo().MemoryUsed, server.GetServerInfo().MaxMemory)
+	// The caller holds the store lock, which GetServerInfo takes: log the figures directly.
+	log.Printf("Memory used: %v, Max Memory: %v", server.memUsed, server.config.MaxMemory)
 	switch {
 	case slices.Contains([]string{constants.AllKeysLFU, constants.VolatileLFU}, strings.ToLower(server.config.EvictionPolicy)):
 		// Remove keys from LFU cache until we're below the max memory limit or
